@@ -287,12 +287,24 @@ func scanWrites(p *pkg, recv string, fn *ast.FuncDecl) *writes {
 	addFields(fn.Type.Params)
 	addFields(fn.Type.Results)
 	atomicArg := map[ast.Expr]bool{}
+	// p := &X: the address of X kept in a local pointer. Taking it is not a write; writing THROUGH p (*p = …, p.f = …,
+	// p[i] = …, p++) or handing p to a call is.
+	ptrAlias := map[string]ast.Expr{}
+	heldAddr := map[ast.Expr]bool{}
 	ast.Inspect(fn.Body, func(n ast.Node) bool {
 		switch x := n.(type) {
 		case *ast.AssignStmt:
 			if x.Tok == token.DEFINE {
 				for i, l := range x.Lhs {
 					if id, ok := l.(*ast.Ident); ok {
+						if len(x.Lhs) == len(x.Rhs) {
+							if u, ok := x.Rhs[i].(*ast.UnaryExpr); ok && u.Op == token.AND {
+								if _, lit := u.X.(*ast.CompositeLit); !lit {
+									ptrAlias[id.Name] = u.X
+									heldAddr[u] = true
+								}
+							}
+						}
 						locals[id.Name] = true
 						if recv != "" && cloneName != "" && len(x.Lhs) == len(x.Rhs) && show(x.Rhs[i]) == recv+"."+cloneName+"()" {
 							w.fresh[id.Name] = true
@@ -341,9 +353,16 @@ func scanWrites(p *pkg, recv string, fn *ast.FuncDecl) *writes {
 		}
 		return true
 	})
-	target := func(e ast.Expr, how string) {
+	var target func(e ast.Expr, how string)
+	target = func(e ast.Expr, how string) {
 		name, depth, ok := rootOf(e)
 		desc := how + " " + show(e)
+		if orig, isPtr := ptrAlias[name]; ok && isPtr {
+			if _, bare := e.(*ast.Ident); !bare {
+				target(orig, how+" through "+name+" = &")
+			}
+			return
+		}
 		switch {
 		case !ok:
 			w.other = append(w.other, desc)
@@ -424,7 +443,7 @@ func scanWrites(p *pkg, recv string, fn *ast.FuncDecl) *writes {
 				}
 			}
 		case *ast.UnaryExpr:
-			if x.Op == token.AND && !atomicArg[x] {
+			if x.Op == token.AND && !atomicArg[x] && !heldAddr[x] {
 				if _, ok := x.X.(*ast.CompositeLit); !ok {
 					target(x.X, "address-of")
 				}
@@ -437,6 +456,11 @@ func scanWrites(p *pkg, recv string, fn *ast.FuncDecl) *writes {
 			for _, a := range x.Args {
 				if c, ok := a.(*ast.CallExpr); ok {
 					aliasing(c, "argument")
+				}
+				if id, ok := a.(*ast.Ident); ok {
+					if orig, isPtr := ptrAlias[id.Name]; isPtr && !atomicArg[a] {
+						target(orig, "pointer "+id.Name+" handed to "+show(x.Fun)+": address-of")
+					}
 				}
 			}
 			switch f := x.Fun.(type) {
@@ -788,6 +812,9 @@ func sliceSources(p *pkg, typ, where string, w *writes) {
 			continue
 		}
 		parts := strings.SplitN(fa[1], "|", 2)
+		if len(w.recvWrites) > 0 {
+			continue // positively broken already: the fact is false
+		}
 		if !strings.HasPrefix(parts[1], "append("+parts[0]+"."+fa[0]+",") {
 			unrecognised("%s.%s: %s.%s = %s: the child's slice does not come from append(%s.%s, …)", typ, where, parts[0], fa[0], parts[1], parts[0], fa[0])
 		}
@@ -833,11 +860,18 @@ func loggerWraps(p *pkg) (bool, []string) {
 			}
 			return true
 		})
-		if !derives {
+		if !derives && len(w.recvWrites) == 0 {
 			unrecognised("Logger.%s never returns a new &Logger{…}", name)
 		}
 	}
 	return ok, notes
+}
+
+func exprStmtText(st ast.Stmt) string {
+	if es, ok := st.(*ast.ExprStmt); ok {
+		return show(es.X)
+	}
+	return ""
 }
 
 type lwInfo struct {
@@ -849,14 +883,19 @@ type lwInfo struct {
 
 // lockWriteInfo: where fn locks / unlocks the output mutex and writes to the destination (paths by role)
 func lockWriteInfo(fn *ast.FuncDecl, recv string, ro *roles) lwInfo {
-	var in lwInfo
 	if ro.mu == "" || ro.out == "" {
-		return in
+		return lwInfo{}
 	}
+	return lockWriteInfoOn(fn, recv+"."+ro.mu, recv+"."+ro.out)
+}
+
+// lockWriteInfoOn: the same for explicit mutex and writer expressions (parameters of a package-level helper)
+func lockWriteInfoOn(fn *ast.FuncDecl, muExpr, outExpr string) lwInfo {
+	var in lwInfo
 	body := fn.Body.List
 	is := func(s string) func(*ast.CallExpr) bool { return func(c *ast.CallExpr) bool { return show(c) == s } }
-	isWrite := func(c *ast.CallExpr) bool { return show(c.Fun) == recv+"."+ro.out+".Write" }
-	lockS, unlockS := recv+"."+ro.mu+".Lock()", recv+"."+ro.mu+".Unlock()"
+	isWrite := func(c *ast.CallExpr) bool { return show(c.Fun) == outExpr+".Write" }
+	lockS, unlockS := muExpr+".Lock()", muExpr+".Unlock()"
 	in.lock, in.dunlock, in.unlock = topLevel(body, false, is(lockS)), topLevel(body, true, is(unlockS)), topLevel(body, false, is(unlockS))
 	in.wr = topLevel(body, false, isWrite)
 	in.nLock, in.nUnlock, in.nWrite = countCalls(fn.Body, is(lockS)), countCalls(fn.Body, is(unlockS)), countCalls(fn.Body, isWrite)
@@ -867,8 +906,15 @@ func lockWriteInfo(fn *ast.FuncDecl, recv string, ro *roles) lwInfo {
 			}
 			return false
 		}
-		if s, ok := n.(*ast.SelectorExpr); ok && show(s) == recv+"."+ro.out {
-			in.otherOut++
+		switch s := n.(type) {
+		case *ast.SelectorExpr:
+			if show(s) == outExpr {
+				in.otherOut++
+			}
+		case *ast.Ident:
+			if s.Name == outExpr {
+				in.otherOut++
+			}
 		}
 		return true
 	})
@@ -1010,7 +1056,75 @@ func concOf(p *pkg, typ string) concFacts {
 				total += 100
 			}
 		}
-		if helper != nil && total == 1 && call != nil {
+		// … or ONE package-level function that is handed the handler's own mutex and writer
+		pkgHelperOut := 0
+		if helper == nil && total == 0 {
+			for name, fn := range p.funcs {
+				var params []string
+				if fn.Type.Params != nil {
+					for _, fl := range fn.Type.Params.List {
+						for _, nm := range fl.Names {
+							params = append(params, nm.Name)
+						}
+					}
+				}
+				for pm := range params {
+					for pw := range params {
+						if pm == pw {
+							continue
+						}
+						hi := lockWriteInfoOn(fn, params[pm], params[pw])
+						if hi.nWrite == 0 || hi.nLock == 0 {
+							continue
+						}
+						isCall := func(c *ast.CallExpr) bool { id, ok := c.Fun.(*ast.Ident); return ok && id.Name == name }
+						n := countCalls(h.decl.Body, isCall)
+						if n == 0 {
+							continue
+						}
+						total += n
+						idx := topLevel(body, false, isCall)
+						if len(idx) != 1 || n != 1 {
+							f.Notes = append(f.Notes, fmt.Sprintf("Handle calls the locking helper %s %d times / not as a top-level statement", name, n))
+							total += 100
+							continue
+						}
+						var c *ast.CallExpr
+						ast.Inspect(body[idx[0]], func(nd ast.Node) bool {
+							if cc, ok := nd.(*ast.CallExpr); ok && isCall(cc) {
+								c = cc
+							}
+							return true
+						})
+						if c == nil || len(c.Args) != len(params) || show(c.Args[pm]) != r+"."+ro.mu || show(c.Args[pw]) != r+"."+ro.out {
+							unrecognised("%s.Handle: %s is not called with the handler's own mutex and writer", typ, name)
+							continue
+						}
+						writeAt, where = idx[0], name
+						info = hi
+						info.otherOut-- // the writer parameter occurs in the Write call only; counted below for Handle
+						if info.otherOut < 0 {
+							info.otherOut = 0
+						}
+						pkgHelperOut = 1
+						arg := hi.writeArg
+						info.writeArg = "?"
+						for i, pn := range params {
+							if pn == arg {
+								info.writeArg = show(c.Args[i])
+							}
+						}
+					}
+				}
+			}
+			if pkgHelperOut == 1 && total != 1 {
+				info.nWrite, info.nLock = total, total
+				writeAt = -1
+			}
+		}
+		if pkgHelperOut == 1 {
+			// fall through to the judgement below with the helper's info
+		} else if helper != nil && total == 1 && call != nil {
 			info = lockWriteInfo(helper.decl, helper.recv, ro)
 			// the helper writes one of its parameters: what does Handle pass for it?
 			arg := info.writeArg
@@ -1060,18 +1174,54 @@ func concOf(p *pkg, typ string) concFacts {
 	}
 	f.FreeDeferred = len(dfree) == 1 && nFree == 1 && bufVar != "" && show(body[dfree[0]].(*ast.DeferStmt).Call) == pr.releaser+"("+bufVar+")" && len(nb) == 1 && dfree[0] > nb[0]
 	if !f.FreeDeferred {
-		if nFree == 0 {
+		free := topLevel(body, false, isFree)
+		switch {
+		case nFree == 0:
 			unrecognised("%s.Handle: buffer is never released", typ)
+		case len(dfree) == 0 && len(free) == 1 && nFree == 1 && bufVar != "" && len(nb) == 1 && writeAt >= 0 && free[0] > writeAt &&
+			exprStmtText(body[free[0]]) == pr.releaser+"("+bufVar+")":
+			// not deferred: released exactly once, after the Write; acceptable when no return can happen in between
+			returns := 0
+			for _, st := range body[nb[0]+1 : free[0]] {
+				ast.Inspect(st, func(n ast.Node) bool {
+					switch n.(type) {
+					case *ast.FuncLit:
+						return false
+					case *ast.ReturnStmt:
+						returns++
+					}
+					return true
+				})
+			}
+			if returns == 0 {
+				f.FreeDeferred = true
+				f.Notes = append(f.Notes, "Handle: the buffer is released by a plain call after the Write (no return in between)")
+			} else {
+				unrecognised("%s.Handle: the buffer is released by a plain call after the Write, but a return lies before it", typ)
+			}
+		case len(free) >= 1 && writeAt >= 0 && free[0] < writeAt:
+			f.Notes = append(f.Notes, "Handle: the buffer is released BEFORE the Write")
+		default:
+			unrecognised("%s.Handle: cannot tell that the buffer is released exactly once after the Write", typ)
 		}
-		f.Notes = append(f.Notes, "Handle: the buffer is not released by a single top-level `defer "+pr.releaser+"(buf)`")
 	}
 	// the single Write
 	wNested := nested(ro.out+".Write", len(info.wr), info.nWrite)
 	otherOut := info.otherOut
 	if where != "Handle" {
 		otherOut += lockWriteInfo(h.decl, r, ro).otherOut
+		if _, isFunc := p.funcs[where]; isFunc {
+			otherOut-- // the one occurrence of the writer as argument of the helper call
+		}
 	}
 	f.SingleWrite = len(info.wr) == 1 && info.nWrite == 1 && otherOut == 0 && !wNested
+	if bufVar != "" {
+		for _, st := range body {
+			if a, ok := st.(*ast.AssignStmt); ok && a.Tok == token.DEFINE && len(a.Lhs) == 1 && len(a.Rhs) == 1 && show(a.Rhs[0]) == "*"+bufVar && show(a.Lhs[0]) == info.writeArg {
+				info.writeArg = "*" + bufVar // a local copy of the slice header
+			}
+		}
+	}
 	if f.SingleWrite && bufVar != "" && info.writeArg != "*"+bufVar {
 		f.SingleWrite = false
 		unrecognised("%s.Handle: the argument of the single Write is %s, not *%s", typ, info.writeArg, bufVar)
